@@ -82,6 +82,37 @@ static const char *const m_quirk_name[Q_COUNT] = {
 	"Q-codes-before-style",
 };
 
+/* What a quirk stands for on the tree under test:
+ *   QK_OPEN     genuine deviation left in place, recorded in known-findings.json under its key;
+ *   QK_REPAIRED genuine deviation repaired by proposed/C08-NN-*.patch: kept as a switch so that an
+ *               unpatched tree or a regression is reported by name (no known-findings entry => VIOLATION);
+ *   QK_OPTION   not a deviation: behaviour the standard leaves to the decoder (optional feature);
+ *               either setting is accepted silently. */
+enum { QK_REPAIRED = 0, QK_OPEN = 1, QK_OPTION = 2 };
+static const uint8_t m_quirk_open[Q_COUNT] = {
+	QK_OPEN,      /* Q-line-buffer-row-copy */
+	QK_OPEN,      /* Q-stale-solid-space */
+	QK_REPAIRED,  /* Q-channel-state-shared-between-fields   C08-04 */
+	QK_REPAIRED,  /* Q-field2-no-dedup                       C08-02 */
+	QK_REPAIRED,  /* Q-dedup-across-nulls                    C08-03 */
+	QK_OPEN,      /* Q-PAC-rollup-erases */
+	QK_OPEN,      /* Q-RU-depth-change-erases */
+	QK_REPAIRED,  /* Q-EOC-erases-hidden                     C08-05 */
+	QK_OPEN,      /* Q-TR-no-clear */
+	QK_OPEN,      /* Q-text-PAC-moves-row */
+	QK_REPAIRED,  /* Q-EDM-ENM-in-text-mode                  C08-11 */
+	QK_OPEN,      /* Q-CR-in-pop-on-paint-on */
+	QK_OPTION,    /* Q-no-extended-chars: EIA-608-B 6.4.2 extended characters are optional */
+	QK_REPAIRED,  /* Q-FON-not-spacing                       C08-06 */
+	QK_REPAIRED,  /* Q-attr-code-no-backspace                C08-12 */
+	QK_REPAIRED,  /* Q-midrow-italics-white                  C08-07 */
+	QK_OPEN,      /* Q-pen-attributes */
+	QK_REPAIRED,  /* Q-TO-destructive                        C08-08 */
+	QK_REPAIRED,  /* Q-PAC-indent-destructive                C08-09 */
+	QK_REPAIRED,  /* Q-cursor-column-33                      C08-01 */
+	QK_REPAIRED,  /* Q-codes-before-style                    C08-10 */
+};
+
 #define QBIT(q) (1u << (q))
 #define QON(m, q) (((m)->quirks >> (q)) & 1u)
 
@@ -680,7 +711,11 @@ static void m_misc(struct model *m, int f, int chbit, int cmd)
 			cc->cursor_known = 1;
 			cc->iroll = n; cc->irow1 = 14 - n + 1;
 			if (!QON(m, Q_PEN_ATTRIBUTES)) cc->pen = cc->pac = m_default_attr;
-			if (cc->poisoned) { cc->poisoned = 0; cc->poison_why = NULL; }
+			if (cc->poisoned) {
+				/* the pen of caption.c survives the restart; what happened to it while the channel was outside the rule texts is not modelled */
+				cc->poisoned = 0; cc->poison_why = NULL;
+				if (QON(m, Q_PEN_ATTRIBUTES)) cc->pen.unk = U_FG | U_IT | U_UL | U_FL | U_BG;
+			}
 		}
 		if (!txt || (m_mem_empty(&cc->mem[0]) && m_mem_empty(&cc->mem[1]))) cc->unflushed = 0;
 		goto caption_selected;
@@ -699,7 +734,10 @@ static void m_misc(struct model *m, int f, int chbit, int cmd)
 		if (!QON(m, Q_TR_NO_CLEAR)) {
 			m_erase(&tc->mem[0]); m_erase(&tc->mem[1]);
 			tc->unflushed = 0;
-			if (tc->poisoned) { tc->poisoned = 0; tc->poison_why = NULL; }
+			if (tc->poisoned) {
+				tc->poisoned = 0; tc->poison_why = NULL;
+				if (QON(m, Q_PEN_ATTRIBUTES)) tc->pen.unk = U_FG | U_IT | U_UL | U_FL | U_BG;
+			}
 		} else if (txt) tc->unflushed = 0;
 		else if (tc->unflushed) m_poison(m, tc, "TR (not clearing) moved the cursor away from a row with a pending word");
 		tc->row = 0; tc->col = 1; tc->stuck = 0; tc->cursor_known = 1;
@@ -773,7 +811,7 @@ static void m_feed(struct model *m, int f, int b1, int b2)
 {
 	if (b1 == 0 && b2 == 0) {
 		/* (i)(1) [RU]: control codes are "transmitted twice in succession": a null pair in between ends the succession */
-		if (!(QON(m, Q_DEDUP_ACROSS_NULLS) && f == 0)) m->last[f] = -1;
+		if (!QON(m, Q_DEDUP_ACROSS_NULLS)) m->last[f] = -1;
 		if (QON(m, Q_LINE_BUFFER) && f == 0) {
 			/* caption.c flushes the current row at the second null pair after text (field 1 only) */
 			int chbit = QON(m, Q_SHARED_CHANNEL_STATE) ? m->sh_chbit : m->cur[f], txt = QON(m, Q_SHARED_CHANNEL_STATE) ? m->sh_text : m->text[f];
